@@ -1,7 +1,8 @@
 import Marwood.Vm.Verify
 import Driver.VmStep
 import Driver.VmCompile
-/-! `vbc <cells>`: run the bytecode verifier on one code object dumped from the real heap;
+/-! `vbc <cells>`: run the bytecode verifier on one code object dumped from the real heap (answer:
+kind, maximal number of temporaries, number of argument cells its `BasePointerOffset` operands address);
 `vat <cells> <offset>`: the number of temporaries the verifier assigns to an instruction offset. -/
 namespace Marwood.Driver.VmVerify
 open Marwood.Vm Marwood.Vm.Verify
@@ -37,7 +38,7 @@ def handle (cmd : String) (args : List String) : Option String :=
   | "vbc", [cells] => do
       let bc ← VmStep.decCells cells
       pure (match verify bc with
-        | .ok (t, h) => s!"ok {if t.entry then "entry" else "proc"} {h}"
+        | .ok (t, h) => s!"ok {if t.entry then "entry" else "proc"} {h} {argNeed bc}"
         | .error r => s!"reject {r.off} {r.why.replace " " "-"}")
   | "vat", [cells, off] => do
       let bc ← VmStep.decCells cells
